@@ -51,3 +51,45 @@ def datetime_subminute_offset(d):
         if isinstance(o, dict): return any(has(k, seen) or has(x, seen) for k, x in o.items())
         return False
     return has(o, set())
+
+def _text_of(d):
+    """the document text of a case given as text or as (form, payload): every plausible decoding, joined"""
+    t = d.get('text')
+    if t is not None: return t
+    p = d.get('payload')
+    if p is None: return ''
+    if d.get('form') in ('str', 'tstream'): return ''.join(map(chr, p))
+    b = bytes(p); out = []
+    for enc in ('utf-8', 'utf-16', 'utf-16-le', 'utf-16-be'):
+        try: out.append(b.decode(enc, 'replace'))
+        except Exception: pass
+    return '\n'.join(out)
+
+def two_errors_form_dependent(d):
+    """an input with a reader-level defect (non-printable character / undecodable bytes) AND another scanner/parser error:
+    in-memory input is validated eagerly, streams block by block (one block of read-ahead), so which of the two errors is
+    raised first depends on the delivery form and on the read schedule.  Both deliveries end in an error, the two errors
+    are of different kinds (ScannerError/ParserError/... vs ReaderError, or an undecodable sequence vs an unprintable
+    character), and one of them is the reader's."""
+    if d.get('kind') != 'form_dependent_error': return False
+    ends = [str(e) for e in (d.get('ends') or [])]
+    if len(ends) != 2 or ends[0] == ends[1]: return False
+    kinds = [e.split('/')[0] for e in ends]
+    if not all(k.endswith('Error') for k in kinds): return False          # both deliveries must end in an error
+    return 'ReaderError' in kinds                                          # and one of the two competing errors is the reader's
+
+def escape_code_out_of_range(d):
+    r"""a double-quoted scalar with a \U escape above 0x10FFFF: chr() raises OverflowError / ValueError inside
+    scan_flow_scalar_non_spaces instead of a ScannerError."""
+    if d.get('exc') not in ('OverflowError', 'ValueError') or d.get('backend', 'py') != 'py': return False
+    t = _text_of(d)
+    if not t: return False
+    for m in re.finditer(r'\\U([0-9A-Fa-f]{8})', t):
+        if int(m.group(1), 16) > 0x10FFFF: return True
+    return False
+
+def yaml_directive_huge_number(d):
+    """%YAML directive whose major or minor number has more than 4300 digits: int() raises ValueError while scanning."""
+    if d.get('exc') != 'ValueError': return False
+    t = _text_of(d)
+    return bool(t) and re.search(r'%YAML[ ]+([0-9]{4301,}\.|[0-9]+\.[0-9]{4301,})', t) is not None
